@@ -173,10 +173,242 @@ Program genC02(Rand& R, int tier)
 }
 
 // ---------------------------------------------------------------------------------------
+// C06 / C07 / C12: lifetime, compute tables, policies -- histories with heavy churn
+// ---------------------------------------------------------------------------------------
+Program genC06(Rand& R, int tier)
+{
+    Gen G(R, tier, "C06");
+    mixedHistory(G, tier, 10, tier ? 120 : 45, 40);
+    // drive one node's incoming count across the 8/16-bit counter widths and back
+    if (R.chance(25)) { int a = G.pickLive(); if (a >= 0) G.emit({"temps", Gen::num(a), R.chance(25) ? "70000" : "300"}); }
+    if (R.chance(30)) {
+        // drain in the middle, then more work
+        G.emit({"drain"});
+        for (auto& s : G.slots) s.live = false;
+        int f = 0;
+        for (int i = 0; i < 3; i++) G.genFunction(i, f, 10);
+        std::vector<int> pool; for (size_t i = 0; i < G.P.forests.size(); i++) pool.push_back(int(i));
+        for (int i = 0; i < 6; i++) G.emitChurn(pool);
+    }
+    G.emit({"drain"});
+    return G.P;
+}
+
+Program genC07(Rand& R, int tier)
+{
+    Gen G(R, tier, "C07");
+    G.randomCt(true);
+    mixedHistory(G, tier, 15, tier ? 150 : 60, 35);
+    return G.P;
+}
+
+Program genC12(Rand& R, int tier)
+{
+    Gen G(R, tier, "C12");
+    mixedHistory(G, tier, 10, tier ? 80 : 35, 30);
+    return G.P;
+}
+
+// ---------------------------------------------------------------------------------------
+// C11: enumeration and counting
+// ---------------------------------------------------------------------------------------
+static void emitIter(Gen& G, int slot)
+{
+    Rand& R = G.R;
+    const FSpec& S = G.P.forests[size_t(G.slots[size_t(slot)].f)];
+    const std::vector<int>& sz = G.P.domains[size_t(S.dom)];
+    Step s{"iter", Gen::num(slot)};
+    if (R.chance(60)) {
+        const int K = int(sz.size());
+        std::vector<int> from, to;
+        for (int v = 0; v < K; v++) {
+            from.push_back(R.chance(45) ? int(R.below(uint32_t(sz[size_t(v)]))) : -1);
+            int t = -1;
+            if (R.chance(35)) t = int(R.below(uint32_t(sz[size_t(v)])));
+            else if (R.chance(30)) t = -2;
+            to.push_back(t);
+        }
+        for (int x : from) s.push_back(Gen::num(x));
+        if (S.rel) for (int x : to) s.push_back(Gen::num(x));
+    }
+    G.emit(s);
+}
+
+Program genC11(Rand& R, int tier)
+{
+    Gen G(R, tier, "C11");
+    const Gen::Kind k = Gen::kinds()[R.below(uint32_t(Gen::kinds().size()))];
+    int d = G.addDomain(k.rel, k.rel ? 3 : 5);
+    std::vector<int> pool;
+    int nforests = R.range(1, 2);
+    for (int i = 0; i < nforests; i++) pool.push_back(G.addForest(G.forestSpec(d, k.rel, k.range, k.label, G.randomReduction(k.rel), R.chance(50))));
+    std::vector<std::string> ops;
+    if (k.range == 'B') ops = {"UNION", "INTERSECTION", "DIFFERENCE", "COMPLEMENT", "COPY"};
+    else ops = {"PLUS", "MINUS", "MULTIPLY", "MAXIMUM", "MINIMUM", "COPY"};
+    int nf = R.range(1, 4);
+    for (int i = 0; i < nf; i++) G.genFunction(i, pool[R.below(uint32_t(pool.size()))], 14);
+    int nops = R.range(4, tier ? 30 : 14);
+    for (int i = 0; i < nops; i++) {
+        int r = int(R.below(100));
+        int a = G.pickLive();
+        if (a < 0 || r < 12) { G.genFunction(G.freeSlot(), pool[R.below(uint32_t(pool.size()))], 14); continue; }
+        if (r < 45) emitIter(G, a);
+        else if (r < 58) G.emit({"counts", Gen::num(a)});
+        else if (r < 72) G.emit({"scalar", R.chance(34) ? "CARD_L" : R.chance(50) ? "CARD_D" : "CARD_Z", Gen::num(a)});
+        else if (r < 80) G.emitChurn(pool);
+        else G.emitOp(ops, pool);
+    }
+    return G.P;
+}
+
+// ---------------------------------------------------------------------------------------
+// C01: canonicity -- the same function along many routes
+// ---------------------------------------------------------------------------------------
+namespace {
+struct Recipe { std::vector<Step> mts; bool useMax; std::string deflt; int f; };
+
+// exact-value palettes so that table equality is exact
+GVal exactValue(Gen& G, const FSpec& S)
+{
+    Rand& R = G.R;
+    GVal g;
+    if (S.range == 'B') { g.k = long(R.below(2)); return g; }
+    if (S.label == 'P' && R.chance(15)) { g.inf = true; return g; }
+    if (S.label == 'T') { static const long pw[] = {1, 2, 4, 8, 16, 32, -1, -2, -4, -8, -16}; g.k = pw[R.below(11)]; return g; }
+    if (S.range == 'R') { g.k = 4 * R.range(-6, 8); if (R.chance(30)) g.k = R.range(-12, 16); return g; }
+    g.k = R.range(-5, 8);
+    return g;
+}
+
+Recipe makeRecipe(Gen& G, int f)
+{
+    Rand& R = G.R;
+    const FSpec& S = G.P.forests[size_t(f)];
+    Recipe rc; rc.f = f;
+    rc.useMax = R.chance(50);
+    int n = R.range(0, 7);
+    std::vector<GVal> pal;
+    for (int i = R.range(1, 3); i > 0; i--) pal.push_back(exactValue(G, S));
+    GVal lo = pal[0], hi = pal[0];
+    for (auto& g : pal) { if (Gen::cmp(g, lo) < 0) lo = g; if (Gen::cmp(g, hi) > 0) hi = g; }
+    GVal d;
+    if (S.range == 'B') d.k = rc.useMax ? 0 : 1;
+    else if (rc.useMax) { d = lo; if (!d.inf && R.chance(50)) d.k = lo.k - (S.range == 'R' ? 4 : 1); if (!d.inf && lo.k >= 0 && S.label != 'P' && R.chance(50)) d.k = 0; }
+    else { d = hi; if (S.label == 'P' && R.chance(50)) d.inf = true; else if (!d.inf && R.chance(50)) d.k = hi.k + (S.range == 'R' ? 4 : 1); }
+    if (S.label == 'T' && !d.inf) { /* EV*: any default is fine (0 or a power of two) */ if (R.chance(50)) d.k = 0; else if (rc.useMax ? Gen::cmp(d, lo) > 0 : Gen::cmp(d, hi) < 0) d = rc.useMax ? lo : hi; }
+    if (S.label == 'T' && !d.inf && d.k == 0) { if (rc.useMax ? lo.k < 0 : hi.k > 0) d = rc.useMax ? lo : hi; }
+    rc.deflt = G.tok(S, d);
+    size_t before = G.P.steps.size();
+    int style0 = int(R.below(4));
+    for (int i = 0; i < n; i++) {
+        GVal v = pal[R.below(uint32_t(pal.size()))];
+        if (S.range == 'B') v.k = rc.useMax ? 1 : 0;
+        int style = R.chance(70) ? style0 : int(R.below(4));
+        if (!S.rel && style == 2) style = 1;
+        G.emitMinterm(f, style, G.tok(S, v));
+    }
+    rc.mts.assign(G.P.steps.begin() + long(before), G.P.steps.end());
+    G.P.steps.resize(before);
+    return rc;
+}
+
+void emitRecipe(Gen& G, const Recipe& rc, int dst, int f, bool shuffle)
+{
+    std::vector<Step> m = rc.mts;
+    if (shuffle) for (size_t i = m.size(); i > 1; i--) std::swap(m[i - 1], m[G.R.below(uint32_t(i))]);
+    for (auto& s : m) G.emit(s);
+    G.emit({"coll", Gen::num(dst), Gen::num(f), rc.useMax ? "max" : "min", rc.deflt});
+    G.setLive(dst, f);
+}
+}
+
+Program genC01(Rand& R, int tier)
+{
+    Gen G(R, tier, "C01");
+    const Gen::Kind k = Gen::kinds()[R.below(uint32_t(Gen::kinds().size()))];
+    int d = G.addDomain(k.rel, k.rel ? 2 : 4, k.rel ? 30 : 200);
+    // main forest, a sibling of the same kind (other rule / policies), and forests of other kinds for detours
+    int f0 = G.addForest(G.forestSpec(d, k.rel, k.range, k.label, G.randomReduction(k.rel), true));
+    int f1 = G.addForest(G.forestSpec(d, k.rel, k.range, k.label, G.randomReduction(k.rel), true));
+    std::vector<int> others;
+    for (auto& o : Gen::kinds()) if (o.rel == k.rel && !(o.range == k.range && o.label == k.label) && R.chance(50))
+        others.push_back(G.addForest(G.forestSpec(d, o.rel, o.range, o.label, G.randomReduction(o.rel), false)));
+    std::vector<int> all = {f0, f1};
+    all.insert(all.end(), others.begin(), others.end());
+    const int MAXS = 12;
+    std::vector<Recipe> recipes;
+    int nrec = R.range(1, 3);
+    for (int i = 0; i < nrec; i++) { recipes.push_back(makeRecipe(G, f0)); emitRecipe(G, recipes.back(), G.freeSlot(MAXS), f0, false); }
+    int steps = R.range(8, tier ? 50 : 24);
+    for (int i = 0; i < steps; i++) {
+        int r = int(R.below(100));
+        int a = G.pickLive(f0);
+        if (r < 22) {                    // same recipe again: shuffled, possibly via the sibling forest
+            const Recipe& rc = recipes[R.below(uint32_t(recipes.size()))];
+            if (R.chance(35)) {
+                int t = G.freeSlot(MAXS); emitRecipe(G, rc, t, f1, true);
+                int u = G.freeSlot(MAXS); G.emit({"un", "COPY", Gen::num(t), Gen::num(u), Gen::num(f0)}); G.setLive(u, f0);
+            } else emitRecipe(G, rc, G.freeSlot(MAXS), f0, true);
+        } else if (r < 30) {             // split the recipe and recombine
+            const Recipe& rc = recipes[R.below(uint32_t(recipes.size()))];
+            Recipe h1 = rc, h2 = rc; h1.mts.clear(); h2.mts.clear();
+            for (auto& m : rc.mts) (R.chance(50) ? h1 : h2).mts.push_back(m);
+            int s1 = G.freeSlot(MAXS); emitRecipe(G, h1, s1, f0, true);
+            int s2 = G.freeSlot(MAXS); emitRecipe(G, h2, s2, R.chance(30) ? f1 : f0, true);
+            int u = G.freeSlot(MAXS);
+            std::string op = k.range == 'B' ? (rc.useMax ? "UNION" : "INTERSECTION") : (rc.useMax ? "MAXIMUM" : "MINIMUM");
+            G.emit({"bin", op, Gen::num(s1), Gen::num(s2), Gen::num(u), Gen::num(f0)}); G.setLive(u, f0);
+        } else if (r < 52 && a >= 0) {   // algebraic detours that return the same function
+            int u = G.freeSlot(MAXS);
+            if (k.range == 'B') {
+                int c = int(R.below(3));
+                if (c == 0) { int t = G.freeSlot(MAXS); G.emit({"un", "COMPLEMENT", Gen::num(a), Gen::num(t), Gen::num(R.chance(50) ? f0 : f1)}); G.setLive(t, f0);
+                              u = G.freeSlot(MAXS); G.emit({"un", "COMPLEMENT", Gen::num(t), Gen::num(u), Gen::num(f0)}); }
+                else if (c == 1) G.emit({"bin", R.chance(50) ? "UNION" : "INTERSECTION", Gen::num(a), Gen::num(a), Gen::num(u), Gen::num(f0)});
+                else { int b = G.pickLive(f0); int t = G.freeSlot(MAXS);
+                       G.emit({"bin", "UNION", Gen::num(a), Gen::num(b), Gen::num(t), Gen::num(f0)}); G.setLive(t, f0);
+                       u = G.freeSlot(MAXS); G.emit({"bin", "INTERSECTION", Gen::num(t), Gen::num(a), Gen::num(u), Gen::num(f0)}); }
+            } else {
+                int c = int(R.below(4));
+                if (c == 0) G.emit({"bin", R.chance(50) ? "MAXIMUM" : "MINIMUM", Gen::num(a), Gen::num(a), Gen::num(u), Gen::num(f0)});
+                else if (c == 1) { int z = G.freeSlot(MAXS); G.emit({"const", Gen::num(z), Gen::num(f0), "0"}); G.setLive(z, f0);
+                                   u = G.freeSlot(MAXS); G.emit({"bin", "PLUS", Gen::num(a), Gen::num(z), Gen::num(u), Gen::num(f0)}); }
+                else if (c == 2) { int z = G.freeSlot(MAXS); G.emit({"const", Gen::num(z), Gen::num(f0), k.range == 'R' ? "r4" : "1"}); G.setLive(z, f0);
+                                   u = G.freeSlot(MAXS); G.emit({"bin", "MULTIPLY", Gen::num(a), Gen::num(z), Gen::num(u), Gen::num(f0)}); }
+                else { int b = G.pickLive(f0); int t = G.freeSlot(MAXS);
+                       G.emit({"bin", "PLUS", Gen::num(a), Gen::num(b), Gen::num(t), Gen::num(f0)}); G.setLive(t, f0);
+                       u = G.freeSlot(MAXS); G.emit({"bin", "MINUS", Gen::num(t), Gen::num(b), Gen::num(u), Gen::num(f0)}); }
+            }
+            G.setLive(u, f0);
+        } else if (r < 64 && a >= 0) {   // through another forest and back
+            int fo = all[1 + R.below(uint32_t(all.size() - 1))];
+            int t = G.freeSlot(MAXS); G.emit({"un", "COPY", Gen::num(a), Gen::num(t), Gen::num(fo)}); G.setLive(t, fo);
+            int u = G.freeSlot(MAXS); G.emit({"un", "COPY", Gen::num(t), Gen::num(u), Gen::num(f0)}); G.setLive(u, f0);
+        } else if (r < 72) {             // a new recipe
+            recipes.push_back(makeRecipe(G, f0)); emitRecipe(G, recipes.back(), G.freeSlot(MAXS), f0, false);
+        } else if (r < 80 && a >= 0) {
+            int u = G.freeSlot(MAXS); if (u != a) { G.emit({"dup", Gen::num(a), Gen::num(u)}); G.setLive(u, f0); }
+        } else {                         // churn: garbage, releases, cache clears
+            int c = int(R.below(4));
+            if (c == 0) { int g = G.freeSlot(MAXS); G.genFunction(g, f0, 10); G.emit({"release", Gen::num(g)}); G.setDead(g); }
+            else if (c == 1) { int v = G.pickLive(); if (v >= 0) { G.emit({"release", Gen::num(v)}); G.setDead(v); } }
+            else if (c == 2) G.emit({"clearct", Gen::num(f0)});
+            else G.emit({"stales"});
+        }
+    }
+    return G.P;
+}
+
+// ---------------------------------------------------------------------------------------
 // dispatch
 // ---------------------------------------------------------------------------------------
 Program generate(const std::string& p, Rand& R, int tier)
 {
+    if (p == "C01") return genC01(R, tier);
+    if (p == "C06") return genC06(R, tier);
+    if (p == "C07") return genC07(R, tier);
+    if (p == "C11") return genC11(R, tier);
+    if (p == "C12") return genC12(R, tier);
     if (p == "C02") return genC02(R, tier);
     if (p == "C03") return genC03(R, tier);
     if (p == "C04") return genC04(R, tier);
@@ -188,6 +420,11 @@ Program generate(const std::string& p, Rand& R, int tier)
 
 bool nontrivialRule(const std::string& p, const Labels& L)
 {
+    if (p == "C01") return L.has("canon_equal_pairs") && L.has("node_death");
+    if (p == "C06") return L.has("node_death") && L.has("handle_reuse") && L.has("drain_point");
+    if (p == "C07") return L.has("handle_reuse") && (L.get("op.UNION") + L.get("op.INTERSECTION") + L.get("op.DIFFERENCE") + L.get("op.PLUS") + L.get("op.MINUS") + L.get("op.MULTIPLY") + L.get("op.MAXIMUM") + L.get("op.MINIMUM") + L.get("op.COPY") >= 5);
+    if (p == "C11") return (L.has("iter_proper_subset") || L.has("iter_mask")) && L.has("op.iter");
+    if (p == "C12") return L.has("node_death") && L.has("both_storage_forms") && L.get("policy_variants") >= 8;
     if (p == "C02") return L.has("audit_20nodes") && L.has("node_death");
     if (p == "C03") return L.has("overlap_different_values") || L.has("dont_change") || L.has("nondefault_default");
     if (p == "C04") return L.has("both_operands_nonconstant") && (L.has("cross_forest_op") || L.get("op.UNION") + L.get("op.INTERSECTION") + L.get("op.DIFFERENCE") > 3);
@@ -198,6 +435,11 @@ bool nontrivialRule(const std::string& p, const Labels& L)
 
 const char* ruleText(const std::string& p)
 {
+    if (p == "C01") return "one function rebuilt along many routes in one forest (same minterms in shuffled order, split-and-recombine, algebraic detours such as double complement / (a+b)-b / x*1, copies through sibling and foreign forests and back) interleaved with garbage, releases and cache clears; after every step every pair of live edges of a forest must be == exactly when their value tables are equal; non-trivial = at least one pair of equal-table edges was compared and a node died earlier in the history; distinct = distinct program text";
+    if (p == "C06") return "random histories of constructions, operations, edge copies/assignments/releases, temporaries (1..70000 copies of one edge), cache clears under optimistic/pessimistic/never policies; exact reference recount of every live node and re-evaluation of every held edge after every step; drain points (release all, clear caches) must leave only nodes reachable from library-held registered edges; non-trivial = a node died, a handle was reused and a drain point ran; distinct = distinct program text";
+    if (p == "C07") return "random histories under a random compute-table configuration (4 styles x 3 stale policies x max sizes x compression) with releases, stale removal and cache clears; every operation result and every held edge checked against the model after every step, and every node's cache count compared with a recount of the table entries; non-trivial = a node handle was reused and at least 5 cached operations ran; distinct = distinct program text";
+    if (p == "C11") return "random functions of every forest kind, iterated with and without random masks (fixed / free / unchanged positions) and counted; visited sequence must be exactly the non-default assignments under the mask in lexicographic order with the function's values; cardinality in long/double/mpz, node and edge counts against the harness' own traversal; non-trivial = an iteration over a proper non-empty subset or under a mask; distinct = distinct program text";
+    if (p == "C12") return "one random history executed once per storage x memory-manager x deletion combination (covering sample of 12 in quick, all 36 in thorough); tables must equal the model in every run, and handle-free canonical forms and node counts of every produced edge must be identical across runs, with a structural audit after every step; non-trivial = a node died, both storage forms occurred, >= 8 variants compared; distinct = distinct program text";
     if (p == "C02") return "random histories (build/operate/copy/release/clear caches) over all forest kinds, reduction rules and the 36 storage x memory-manager x deletion policies, whole-forest structural audit after every step; non-trivial = some audited forest held >= 20 nodes and at least one node died earlier in the history; distinct = distinct program text";
     if (p == "C03") return "random minterm collections / single minterms / constants / variable functions in one forest of a random kind, reduction rule and policy; compared pointwise with a reference matcher through evaluate() and through an independent expansion of the diagram; non-trivial = overlapping minterms with different values, or a DONT_CHANGE position, or a non-transparent default; distinct = distinct program text";
     if (p == "C04") return "random programs of union/intersection/difference/complement/cross over pools holding two distinct boolean forests per reduction rule; result and operands checked pointwise; non-trivial = an operation with two non-constant operands and (operands/result in different forests or a compute table warmed by >3 earlier set operations); distinct = distinct program text";
